@@ -548,7 +548,7 @@ def register(PROPS):
         prepare=c14_prepare, post=c14_post, replay_env=c14_replay_env,
         stages=[dict(test="TestC14", kind="enum", quick=1, thorough=1, timeout_thorough=5400)],
         replay="TestReplayC14",
-        rule="program pairs (56 quick / 412 thorough): the first 22 pairs insert one excluded field of each Go type class (incl. an embedded struct of unexported type); the last 4/12 pairs reuse one struct type both embedded in the root and as the type of two group fields; (8 primitives, other basic types, pointer, slice, array, map, chan, func with "
+        rule="program pairs (56 quick / 2012 thorough; every other embedded field, by position, carries a tag of another package - `json:",inline"` - and is still an embedded field): the first 22 pairs insert one excluded field of each Go type class (incl. an embedded struct of unexported type); the last 4/12 pairs reuse one struct type both embedded in the root and as the type of two group fields; (8 primitives, other basic types, pointer, slice, array, map, chan, func with "
              "unnamed/named parameters and results, anonymous structs with exported fields, interfaces, named struct / pointer / slice of it, qualified types) into a healthy base; the rest draw 1..4 excluded "
              "fields (how in {unexported, dash-tagged} quick; + {_x, non-ASCII lower-case} thorough) at random structs/positions and/or replace a random contiguous run of fields of a random struct by an "
              "embedded struct. Oracle: decorated program generates deterministically and compiles; for up to 60 structurally distinct records x 3 workloads the bytes written are identical to the base's; "
@@ -623,6 +623,8 @@ def c15_prepare(D, pid, cfg, W, tier, replay):
         f = lab.annotate(f, prims=C15_PRIMS, tag_all=True)
         if k % 3 == 1:
             f = underscore_tags(f)  # column names that are identifiers with an underscore (n3 -> n_3)
+        elif k % 7 == 2:
+            f = underscore_tags(f, "\u00e9", "\u00fc")  # column / group names starting with a non-ASCII cased letter (n3 -> \u00e93, group n2 -> \u00fc2)
         items.append((name, f, dict(tag_all=True, prims=C15_PRIMS)))
     res = lab.build_lab(W, items, determinism=False)
     for (name, f, kw), r in zip(items, res):
@@ -630,13 +632,13 @@ def c15_prepare(D, pid, cfg, W, tier, replay):
     return ["lab/" + c["name"] for c in W.c15 if c["res"]["ok"]]
 
 
-def underscore_tags(fields):
+def underscore_tags(fields, leaf="n_", group="g_"):
     out = []
     for f in fields:
         if f[0] == "leaf":
-            out.append(("leaf", f[1], f[2], f[3].replace("n", "n_", 1) if f[3] else f[3], f[4]))
+            out.append(("leaf", f[1], f[2], f[3].replace("n", leaf, 1) if f[3] else f[3], f[4]))
         elif f[0] == "group":
-            out.append(("group", f[1], underscore_tags(f[2]), f[3], f[4].replace("n", "g_", 1) if f[4] else f[4]))
+            out.append(("group", f[1], underscore_tags(f[2], leaf, group), f[3], f[4].replace("n", group, 1) if f[4] else f[4]))
         else:
             out.append(f)
     return out
@@ -772,8 +774,8 @@ def register(PROPS):
         prepare=c15_prepare, post=c15_post, replay_env=c15_replay_env, mid=c15_mid,
         stages=[dict(test="TestC15Write", kind="enum", quick=1, thorough=1, shards=1), dict(test="TestC15Read", kind="enum", quick=1, thorough=1, bin="props2.test", premid=True, timeout_thorough=3600)],
         replay="TestReplayC15",
-        rule="programs: 7 fixed shapes + seeded random shapes (32 quick / 400 thorough): 1..4 fields per struct, each a leaf {required, optional} of int32/string/bool/int64/float64/float32 or a group "
-             "{required, optional} nested to depth 3; all columns tagged with unique identifiers (every third program uses names with an underscore, e.g. g_3.n_4). Per program: up to 40 structurally distinct records written with the source type (codec rotates), "
+        rule="programs: 7 fixed shapes + seeded random shapes (32 quick / 2000 thorough): 1..4 fields per struct, each a leaf {required, optional} of int32/string/bool/int64/float64/float32 or a group "
+             "{required, optional} nested to depth 3; all columns tagged with unique identifiers (every third program uses names with an underscore, e.g. g_3.n_4; every seventh uses column and group names that start with a non-ASCII cased letter). Per program: up to 40 structurally distinct records written with the source type (codec rotates), "
              "parquetgen -parquet on the file - into a directory that already holds the output of a run for the previous program's file - compile, then: notation and column paths of the regenerated Rec (by reflection) == source; regenerated reader returns the written values. "
              "evaluations = records compared; non-trivial = shape with a group at depth >= 2 or an optional group; distinct by program.",
     )
